@@ -2,7 +2,7 @@
    model's normalise / intensity, for EVERY number type (binary64 included): no algebraic law is used. *)
 From Coq Require Import List Reals.
 Import ListNotations.
-From SM Require Import Base.Num C01.Model C01.Proofs Gen.C01_code Gen.C01_details.
+From SM Require Import Base.Num C01.Model C01.Proofs Gen.C01_code Gen.C01_details Gen.C01_loop.
 
 Theorem code_normalise_is_model (T : Type) (O : Ops T) (s : Sums (T:=T)) : code_normalise O s = normalise O s.
 Proof. reflexivity. Qed.
@@ -21,3 +21,14 @@ Theorem code_make_details_is_model : details_translated = true -> forall max_pd 
   (if code_refuses max_pd lens then TooMany
    else Slots (map fst (code_selection max_pd lens)) (map snd (code_selection max_pd lens))) = make_details max_pd lens.
 Proof. intros Ht. try solve [vm_compute in Ht; discriminate Ht]. all: reflexivity. Qed.
+
+(* the skeleton of the dispersity loop nest as read from kernel_iq.c (Gen/C01_loop.v; the three macro bodies are
+   compared with their expected text by the translator): the levels form one well-nested stack - opened from the
+   outermost level n-1 down to 0 without a gap, each inside the next higher one, closed in the reverse order, their
+   loop variables initialised in the order they are opened - which is the nest the model's odometer (index 0
+   fastest) describes *)
+Theorem code_loop_nest_is_model : loop_translated = true ->
+  code_open_order = rev (seq 0 (length code_open_order)) /\
+  code_close_order = rev code_open_order /\
+  code_init_order = code_open_order.
+Proof. intros Ht. try solve [vm_compute in Ht; discriminate Ht]. all: repeat split; reflexivity. Qed.
